@@ -6,10 +6,21 @@
 package tl
 
 import (
+	"crypto/rand"
 	"math/big"
 
 	"github.com/xelaj/go-dry"
 )
+
+// randomBytes returns size bytes from the operating system's cryptographic random source. Nonces of the key
+// exchange must be unpredictable, so a failing system source is fatal rather than silently replaced.
+func randomBytes(size int) []byte {
+	b := make([]byte, size)
+	if _, err := rand.Read(b); err != nil {
+		panic("reading system random source: " + err.Error())
+	}
+	return b
+}
 
 // Int128 is alias-like type for fixed size of big int (1024 bit value). It using only for tl objects encoding
 // cause native big.Int isn't supported for en(de)coding
@@ -25,7 +36,7 @@ func NewInt128() *Int128 {
 // NewInt128 creates int128 with random value
 func RandomInt128() *Int128 {
 	i := &Int128{Int: big.NewInt(0)}
-	i.SetBytes(dry.RandomBytes(Int128Len))
+	i.SetBytes(randomBytes(Int128Len))
 	return i
 }
 
@@ -66,7 +77,7 @@ func NewInt256() *Int256 {
 // NewInt256 creates int256 with random value
 func RandomInt256() *Int256 {
 	i := &Int256{big.NewInt(0)}
-	i.SetBytes(dry.RandomBytes(Int256Len))
+	i.SetBytes(randomBytes(Int256Len))
 	return i
 }
 
